@@ -33,7 +33,7 @@ func (c12) Rule() string {
 		"sent presence, each entry equal to its author's own view; on presenceless documents no stored change has a presence " +
 		"change, no presence-only (operation-less) row exists, and no response change or snapshot carries presence. " +
 		"Non-trivial = >=1 presence change after attach and >=2 attached replicas compared (enabled) / >=1 hostile or " +
-		"mismatching attacher (disabled)."
+		"mismatching attacher (disabled). sdk family (every eighth case): the real client.Client with every attach option, same oracle on MyPresence()/AllPresences() and the stored log."
 }
 func (c12) Assumptions() []string {
 	return []string{"memdb", "replicas do not watch (no online-client set), so AllPresences() is compared, not Presences()",
